@@ -188,7 +188,7 @@ where
                 let exp: Vec<f64> = if n >= d && n - d < l { a[n - d].amps() } else { F::EQUILIBRIUM.amps() };
                 for (ch, (g, e)) in o.amps().iter().zip(&exp).enumerate() {
                     ensure!(
-                        (g - e).abs() <= 1e-12 * peak + F::LSB,
+                        (g - e).abs() <= 1e-12 * peak,
                         "depth {}: output {} channel {} = {}, expected source frame {} delayed by depth = {} (peak {})",
                         d, n, ch, g, n as i64 - d as i64, e, peak
                     );
@@ -352,7 +352,7 @@ pub fn run(ctx: &mut Ctx) {
          float inputs scaled by a gain from 1e-30 to 1e6; one of five checks: converter at ratio exactly 1 (scale 1.0, or two equal rates through from_hz_to_hz / set_hz_to_hz), linearity (superposition and power-of-two scaling), constant input on a primed buffer with depth >= 4, reset, converter at a random ratio); integer inputs limited to 0.15 full scale; \
          non-trivial: depth <= 2, history shorter than depth, x != 0, or reset",
     );
-    ctx.assume("transparent: |out_n - source[n-depth]| <= 1e-12 peak (+1 LSB for integer formats); linearity within (12 depth + 12) eps sum|inputs| for floats, (6 depth + 3) LSB plus input truncation for integer formats; constant input within 1 % (+ (2 depth + 1) LSB of per-term truncation for integer formats); reset compared bit for bit with a fresh interpolator");
+    ctx.assume("transparent: |out_n - source[n-depth]| <= 1e-12 peak (for integer formats that is less than one LSB, i.e. exact); linearity within (12 depth + 12) eps sum|inputs| for floats, (6 depth + 3) LSB plus input truncation for integer formats; constant input within 1 % (+ (2 depth + 1) LSB of per-term truncation for integer formats); reset compared bit for bit with a fresh interpolator");
     for c in ["depth <= 2", "history shorter than depth (priming)", "ratio exactly 1", "linearity", "constant input, primed, depth >= 4", "reset", "converter at a random ratio", "integer format", "float input above 1.0", "float input below 1e-20", "ratio 1 as two equal rates"] {
         ctx.require_class(c);
     }
